@@ -104,12 +104,12 @@ ValidFinal(res, K, sc(_), k, tol) ==
   /\ \A i \in 1..(n - 1) : res[i][2] >= res[i + 1][2] - tol
   /\ (n > 0 => \A d \in K \ ids : sc(d) <= res[n][2] + 2 * tol)
 
-\* e: [qpos (-1 = none), qtoks (<<>> = none), groups, hasFilter, k >= 1, fusion, wv, wt (halves), rrk (reciprocal-rank constant)]
+\* e: [qpos (-1 = none), qtoks, hasText (WithText was called, possibly with an empty text), groups, hasFilter, k >= 1, fusion, wv, wt (halves), rrk (reciprocal-rank constant)]
 \* "error" results are decided by SearchFails
-SearchFails(e) == \/ (e.qpos # -1 /\ ~cfg.v) \/ (e.qtoks # <<>> /\ ~cfg.t) \/ (e.hasFilter /\ ~cfg.m)
+SearchFails(e) == \/ (e.qpos # -1 /\ ~cfg.v) \/ (e.hasText /\ ~cfg.t) \/ (e.hasFilter /\ ~cfg.m)
 
 ValidSearch(e, res) ==
-  LET useV == e.qpos # -1   useT == e.qtoks # <<>>   useM == e.hasFilter
+  LET useV == e.qpos # -1   useT == e.hasText   useM == e.hasFilter
       Cand == IF useM THEN M!Result(e.groups) ELSE {}
       InCand(d) == ~useM \/ d \in Cand
       VE == IF useV THEN {d \in VLiveIds : InCand(d)} ELSE {}
